@@ -402,3 +402,411 @@ Proof.
   - intros (O & (s1 & I1 & O1 & F1)). exists s1. split; auto. apply in_remove_slab. split; auto. intros E.
     assert (s1 = s) by (destruct Hc as (_ & Hn & _); eapply nodup_map_inj; eauto). subst. congruence.
 Qed.
+
+Lemma pfree_in_slab : forall N hlen nid l s x, cwf N hlen nid l -> In s l -> owns N s x = true ->
+  (pfree N l x <-> In (x - sl_base s) (free_nodes N s)).
+Proof.
+  intros N hlen nid l s x Hc Hin Ho. split.
+  - intros (s1 & I1 & O1 & F1). assert (s1 = s) by (eapply cwf_unique; eauto). subst; auto.
+  - intros F. exists s; auto.
+Qed.
+
+Lemma pused_in_slab : forall N hlen nid l s x, cwf N hlen nid l -> In s l -> owns N s x = true ->
+  (pused N l x <-> ~ In (x - sl_base s) (free_nodes N s)).
+Proof.
+  intros N hlen nid l s x Hc Hin Ho. split.
+  - intros (s1 & I1 & O1 & F1). assert (s1 = s) by (eapply cwf_unique; eauto). subst; auto.
+  - intros F. exists s; auto.
+Qed.
+
+Lemma owned_lt_hlen : forall N hlen nid l s x, cwf N hlen nid l -> In s l -> owns N s x = true -> x < hlen.
+Proof.
+  intros N hlen nid l s x (_ & _ & _ & Hb & _) Hin Ho. rewrite Forall_forall in Hb. specialize (Hb s Hin).
+  apply owns_spec in Ho. lia.
+Qed.
+
+(* ------------------------------------------------------------------ ObtainObjectAux *)
+
+Definition obtain_spec (N hlen : nat) (p p' : pool) (o : nat) (cr : option slab) : Prop :=
+  match cr with
+  | None =>
+      pool_wf N hlen p' /\ pfree N (p_slabs p) o /\ pused N (p_slabs p') o /\ p_max p' = p_max p /\
+      (forall x, x <> o -> (pfree N (p_slabs p') x <-> pfree N (p_slabs p) x) /\
+                           (pused N (p_slabs p') x <-> pused N (p_slabs p) x))
+  | Some sn =>
+      pool_wf N (hlen + N) p' /\ p_cur p = 0 /\ hlen <= o < hlen + N /\ sl_base sn = hlen /\
+      pused N (p_slabs p') o /\ p_max p' = p_max p /\
+      (forall x, x <> o -> (pfree N (p_slabs p') x <-> pfree N (p_slabs p) x \/ hlen <= x < hlen + N) /\
+                           (pused N (p_slabs p') x <-> pused N (p_slabs p) x))
+  end.
+
+Lemma pool_wf_weaken : forall N hlen hlen' p, hlen <= hlen' -> pool_wf N hlen p -> pool_wf N hlen' p.
+Proof.
+  intros N hlen hlen' p Hle []. constructor; auto.
+  rewrite Forall_forall in *. intros s Hs. specialize (pw_bound0 s Hs). lia.
+Qed.
+
+Lemma obtain_existing : forall N hlen p s rest s' i,
+  pool_wf N hlen p -> p_slabs p = s :: rest -> slab_pop s = Some (s', i) ->
+  obtain_spec N hlen p
+    (mkPool (if negb (has_avail s') && negb (is_nil rest) then rest ++ [s'] else s' :: rest) (p_cur p - 1) (p_max p) (p_nextid p))
+    (sl_base s + i) None.
+Proof.
+  intros N hlen p s rest s' i Hw Hs Hpop.
+  pose proof (pool_wf_cwf _ _ _ Hw) as Hc. rewrite Hs in Hc.
+  destruct Hw as [W1 W2 W3 W4 W5 W6 W7]. rewrite Hs in *.
+  assert (Hsw : slab_wf N s) by (inversion W1; auto).
+  pose proof (slab_pop_spec N s Hsw) as Hp. rewrite Hpop in Hp.
+  destruct Hp as (l & Hf & Hf' & Hw' & Eid & Ebase & Einuse).
+  assert (Hin : In s (s :: rest)) by (left; auto).
+  assert (Hrem : remove_slab (sl_id s) (s :: rest) = rest) by (apply remove_head; auto).
+  assert (Hc' : cwf N hlen (p_nextid p) (s' :: rest)).
+  { rewrite <- Hrem. eapply cwf_replace; eauto. }
+  set (slabs' := if negb (has_avail s') && negb (is_nil rest) then rest ++ [s'] else s' :: rest).
+  assert (HP : Permutation (s' :: rest) slabs').
+  { unfold slabs'. destruct (negb (has_avail s') && negb (is_nil rest)); auto.
+    change (s' :: rest) with ([s'] ++ rest). apply Permutation_app_comm. }
+  assert (Hc2 : cwf N hlen (p_nextid p) slabs') by (eapply cwf_perm; eauto).
+  assert (Hi : i < N) by (apply (free_nodes_bound N s i Hsw); rewrite Hf; left; auto).
+  assert (Hown : owns N s (sl_base s + i) = true) by (apply owns_spec; lia).
+  assert (Hni : ~ In i l).
+  { destruct (slab_wf_free _ _ Hsw) as (_ & Hnd & _). rewrite Hf in Hnd. inversion Hnd; auto. }
+  unfold obtain_spec. cbn [p_slabs p_cur p_max p_nextid]. rewrite Hs. fold slabs'. split; [|split; [|split; [|split]]].
+  - destruct Hc2 as (C1 & C2 & C3 & C4 & C5). constructor; cbn [p_slabs p_cur p_max p_nextid]; auto.
+    + rewrite <- (free_total_perm N _ _ HP). cbn [free_total]. rewrite Hf'.
+      rewrite W6. cbn [free_total]. rewrite Hf. cbn [length]. lia.
+    + unfold slabs'. cbn in W7. destruct W7 as (A1 & A2).
+      destruct (has_avail s') eqn:Ha; cbn [negb andb].
+      * cbn. split; auto. unfold full. congruence.
+      * destruct rest as [|r rest']; cbn [is_nil negb].
+        -- cbn. split; auto.
+        -- apply abf_app_full; auto.
+  - exists s. split; auto. split; auto. replace (sl_base s + i - sl_base s) with i by lia. rewrite Hf. left; auto.
+  - eapply pused_perm; eauto. exists s'. split; [left; auto|]. split.
+    + unfold owns. rewrite Ebase. exact Hown.
+    + rewrite Ebase. replace (sl_base s + i - sl_base s) with i by lia. rewrite Hf'. auto.
+  - reflexivity.
+  - intros x Hx. cbn [p_slabs].
+    assert (E1 : pfree N slabs' x <-> pfree N (s' :: rest) x).
+    { split; apply pfree_perm; auto. apply Permutation_sym; auto. }
+    assert (E2 : pused N slabs' x <-> pused N (s' :: rest) x).
+    { split; apply pused_perm; auto. apply Permutation_sym; auto. }
+    rewrite E1, E2.
+    pose proof (pfree_replace N hlen (p_nextid p) (s :: rest) s s' x Hc Hin Eid Ebase) as R1.
+    pose proof (pused_replace N hlen (p_nextid p) (s :: rest) s s' x Hc Hin Eid Ebase) as R2.
+    rewrite Hrem in R1, R2. rewrite R1, R2. rewrite Hf'.
+    destruct (owns N s x) eqn:Ho.
+    + rewrite (pfree_in_slab N hlen _ _ s x Hc Hin Ho). rewrite (pused_in_slab N hlen _ _ s x Hc Hin Ho).
+      rewrite Hf. apply owns_spec in Ho.
+      assert (x - sl_base s <> i) by lia.
+      cbn [In]. split; split; intros; intuition (try congruence).
+    + split; split; intros; intuition (try congruence).
+Qed.
+
+Lemma obtain_create : forall N hlen p, 1 <= N -> pool_wf N hlen p ->
+  Forall full (p_slabs p) ->
+  let '(p', o, cr) := pool_create N hlen p in obtain_spec N hlen p p' o cr.
+Proof.
+  intros N hlen p HN Hw Hfull.
+  pose proof (pool_wf_cwf _ _ _ Hw) as Hc.
+  destruct Hw as [W1 W2 W3 W4 W5 W6 W7].
+  unfold pool_create.
+  set (s := new_slab N (p_nextid p) hlen).
+  pose proof (new_slab_wf N (p_nextid p) hlen) as Hsw. fold s in Hsw.
+  pose proof (slab_pop_spec N s Hsw) as Hp.
+  destruct (slab_pop s) as [[s' i]|] eqn:Hpop.
+  2:{ exfalso. destruct Hp as (Hp & _). unfold s in Hp. rewrite new_slab_free in Hp.
+      destruct N; [lia|]. rewrite seq_S, rev_app_distr in Hp. discriminate. }
+  destruct Hp as (l & Hf & Hf' & Hw' & Eid & Ebase & Einuse).
+  assert (Eid' : sl_id s' = p_nextid p) by (rewrite Eid; reflexivity).
+  assert (Ebase' : sl_base s' = hlen) by (rewrite Ebase; reflexivity).
+  assert (Hi : i < N) by (apply (free_nodes_bound N s i Hsw); rewrite Hf; left; auto).
+  assert (Hni : ~ In i l).
+  { destruct (slab_wf_free _ _ Hsw) as (_ & Hnd & _). rewrite Hf in Hnd. inversion Hnd; auto. }
+  assert (Hlen : length l = N - 1).
+  { destruct (slab_wf_free _ _ Hsw) as (_ & _ & Hl). rewrite Hf in Hl. cbn in Hl. lia. }
+  assert (Hcur : p_cur p = 0) by (rewrite W6; apply free_total_full; auto).
+  set (slabs' := if has_avail s' then s' :: p_slabs p else p_slabs p ++ [s']).
+  assert (HP : Permutation (s' :: p_slabs p) slabs').
+  { unfold slabs'. destruct (has_avail s'); auto.
+    change (s' :: p_slabs p) with ([s'] ++ p_slabs p). apply Permutation_app_comm. }
+  assert (Hown' : forall x, owns N s' x = true <-> hlen <= x < hlen + N).
+  { intros x. rewrite owns_spec. rewrite Ebase'. tauto. }
+  assert (Hold : forall s0 x, In s0 (p_slabs p) -> owns N s0 x = true -> x < hlen).
+  { intros s0 x I0 O0. eapply owned_lt_hlen; eauto. }
+  assert (Hc1 : cwf N (hlen + N) (S (p_nextid p)) (s' :: p_slabs p)).
+  { destruct Hc as (C1 & C2 & C3 & C4 & C5). repeat split.
+    - constructor; auto.
+    - cbn. constructor; auto. rewrite Eid'. intros Hx. apply in_map_iff in Hx. destruct Hx as (y & E & Hy).
+      rewrite Forall_forall in C3. specialize (C3 y Hy). lia.
+    - constructor; [lia|]. rewrite Forall_forall in *. intros y Hy. specialize (C3 y Hy). lia.
+    - constructor; [lia|]. rewrite Forall_forall in *. intros y Hy. specialize (C4 y Hy). lia.
+    - intros s1 s2 x I1 I2 O1 O2. destruct I1 as [I1|I1], I2 as [I2|I2]; subst; auto.
+      + apply Hown' in O1. pose proof (Hold _ _ I2 O2). lia.
+      + apply Hown' in O2. pose proof (Hold _ _ I1 O1). lia.
+      + eapply C5; eauto. }
+  assert (Hc2 : cwf N (hlen + N) (S (p_nextid p)) slabs') by (eapply cwf_perm; eauto).
+  unfold obtain_spec. cbn [p_slabs p_cur p_max p_nextid]. fold slabs'.
+  split; [|split; [|split; [|split; [|split; [|split]]]]]; auto.
+  - destruct Hc2 as (C1 & C2 & C3 & C4 & C5). constructor; cbn [p_slabs p_cur p_max p_nextid]; auto.
+    + rewrite <- (free_total_perm N _ _ HP). cbn [free_total]. rewrite Hf'. rewrite <- W6. lia.
+    + unfold slabs'. destruct (has_avail s') eqn:Ha.
+      * cbn. split; auto.
+      * apply abf_app_full; auto.
+  - lia.
+  - eapply pused_perm; eauto. exists s'. split; [left; auto|]. split.
+    + apply Hown'. lia.
+    + rewrite Ebase'. replace (hlen + i - hlen) with i by lia. rewrite Hf'. auto.
+  - intros x Hx.
+    assert (E1 : pfree N slabs' x <-> pfree N (s' :: p_slabs p) x).
+    { split; apply pfree_perm; auto. apply Permutation_sym; auto. }
+    assert (E2 : pused N slabs' x <-> pused N (s' :: p_slabs p) x).
+    { split; apply pused_perm; auto. apply Permutation_sym; auto. }
+    rewrite E1, E2. split; split.
+    + intros (s1 & I1 & O1 & F1). destruct I1 as [I1|I1].
+      * subst s1. right. apply Hown'; auto.
+      * left. exists s1; auto.
+    + intros [(s1 & I1 & O1 & F1)|Hr].
+      * exists s1. split; [right; auto|auto].
+      * exists s'. split; [left; auto|]. split; [apply Hown'; auto|].
+        rewrite Ebase', Hf'.
+        (* every index below N other than i is in l *)
+        assert (Hx2 : x - hlen < N) by lia.
+        assert (Hall : forall k, k < N -> In k (i :: l)).
+        { intros k Hk. rewrite <- Hf. unfold s. rewrite new_slab_free. apply -> in_rev. apply in_seq. lia. }
+        destruct (Hall (x - hlen) Hx2) as [E|E]; auto. exfalso. lia.
+    + intros (s1 & I1 & O1 & F1). destruct I1 as [I1|I1].
+      * subst s1. exfalso. apply F1. rewrite Ebase', Hf'. apply Hown' in O1.
+        assert (Hall : forall k, k < N -> In k (i :: l)).
+        { intros k Hk. rewrite <- Hf. unfold s. rewrite new_slab_free. apply -> in_rev. apply in_seq. lia. }
+        destruct (Hall (x - hlen)) as [E|E]; auto; [lia|]. exfalso. lia.
+      * exists s1; auto.
+    + intros (s1 & I1 & O1 & F1). exists s1. split; [right; auto|auto].
+Qed.
+
+Theorem pool_obtain_spec : forall N hlen p, 1 <= N -> pool_wf N hlen p ->
+  let '(p', o, cr) := pool_obtain N hlen p in obtain_spec N hlen p p' o cr.
+Proof.
+  intros N hlen p HN Hw. unfold pool_obtain.
+  destruct (p_slabs p) as [|s rest] eqn:Hs.
+  - apply obtain_create; auto. rewrite Hs; constructor.
+  - destruct (slab_pop s) as [[s' i]|] eqn:Hpop.
+    + apply obtain_existing; auto.
+    + apply obtain_create; auto.
+      (* the first slab is full, hence every slab is *)
+      destruct Hw as [W1 W2 W3 W4 W5 W6 W7]. rewrite Hs in *.
+      apply abf_all_full; auto. unfold full, has_avail. unfold slab_pop in Hpop. destruct (sl_first s); [discriminate|auto].
+Qed.
+
+(* ------------------------------------------------------------------ ReleaseObjectAux *)
+
+Lemma find_slab_some : forall N l o s, find_slab N l o = Some s -> In s l /\ owns N s o = true.
+Proof.
+  induction l as [|h t IH]; cbn; intros o s H; [discriminate|].
+  destruct (owns N h o) eqn:E.
+  - inversion H; subst; auto.
+  - destruct (IH _ _ H); auto.
+Qed.
+
+Lemma find_slab_none : forall N l o, find_slab N l o = None -> forall s, In s l -> owns N s o = false.
+Proof.
+  induction l as [|h t IH]; cbn; intros o H s Hin; [tauto|].
+  destruct (owns N h o) eqn:E; [discriminate|]. destruct Hin; subst; auto.
+Qed.
+
+Lemma full_cover : forall N l, NoDup l -> (forall x, In x l -> x < N) -> length l = N -> forall k, k < N -> In k l.
+Proof.
+  intros N l Hnd Hb Hlen k Hk.
+  assert (Hincl : incl l (seq 0 N)) by (intros x Hx; apply in_seq; specialize (Hb x Hx); lia).
+  assert (Hle : length (seq 0 N) <= length l) by (rewrite seq_length; lia).
+  pose proof (NoDup_length_incl Hnd Hle Hincl) as H. apply H. apply in_seq. lia.
+Qed.
+
+Lemma unused_all_free : forall N s, slab_wf N s -> sl_inuse s = 0 -> forall k, k < N -> In k (free_nodes N s).
+Proof.
+  intros N s Hw H0 k Hk. destruct (slab_wf_free _ _ Hw) as (Hc & Hnd & Hlen).
+  apply (full_cover N); auto; [|lia]. intros x Hx. eapply free_nodes_bound; eauto.
+Qed.
+
+Definition release_spec (N hlen : nat) (p p' : pool) (o : nat) (del : option slab) : Prop :=
+  pool_wf N hlen p' /\ p_max p' = p_max p /\
+  match del with
+  | None =>
+      pfree N (p_slabs p') o /\
+      (forall x, x <> o -> (pfree N (p_slabs p') x <-> pfree N (p_slabs p) x) /\
+                           (pused N (p_slabs p') x <-> pused N (p_slabs p) x))
+  | Some sd =>
+      owns N sd o = true /\ sl_base sd + N <= hlen /\
+      (forall x, owns N sd x = true -> x = o \/ pfree N (p_slabs p) x) /\
+      (forall x, owns N sd x = true -> ~ pfree N (p_slabs p') x /\ ~ pused N (p_slabs p') x) /\
+      (forall x, owns N sd x = false -> (pfree N (p_slabs p') x <-> pfree N (p_slabs p) x) /\
+                                        (pused N (p_slabs p') x <-> pused N (p_slabs p) x))
+  end.
+
+Theorem pool_release_spec : forall N hlen p o, 1 <= N -> pool_wf N hlen p -> pused N (p_slabs p) o ->
+  let '(p', del) := pool_release N p o in release_spec N hlen p p' o del.
+Proof.
+  intros N hlen p o HN Hw Hu.
+  pose proof (pool_wf_cwf _ _ _ Hw) as Hc.
+  destruct Hw as [W1 W2 W3 W4 W5 W6 W7].
+  destruct Hu as (s & Hin & Ho & Hnf).
+  unfold pool_release.
+  destruct (find_slab N (p_slabs p) o) as [s0|] eqn:Hfs.
+  2:{ pose proof (find_slab_none _ _ _ Hfs s Hin). congruence. }
+  destruct (find_slab_some _ _ _ _ Hfs) as (Hin0 & Ho0).
+  assert (s0 = s) by (eapply cwf_unique; eauto). subst s0.
+  assert (Hsw : slab_wf N s) by (rewrite Forall_forall in W1; auto).
+  pose proof Ho as Ho'. apply owns_spec in Ho'.
+  set (i := o - sl_base s) in *.
+  assert (Hi : i < N) by (unfold i; lia).
+  destruct (slab_push_spec N s i Hsw Hi Hnf) as (Hw' & Hf' & Hpos).
+  set (s' := slab_push s i) in *.
+  assert (Eid : sl_id s' = sl_id s) by reflexivity.
+  assert (Ebase : sl_base s' = sl_base s) by reflexivity.
+  assert (Hown : forall x, owns N s' x = owns N s x) by reflexivity.
+  destruct (slab_wf_free _ _ Hsw) as (_ & Hnd & Hlen).
+  assert (Hft : free_total N (p_slabs p) = length (free_nodes N s) + free_total N (remove_slab (sl_id s) (p_slabs p))).
+  { apply free_total_remove; auto. }
+  destruct ((p_max p + N <? S (p_cur p)) && negb (slab_in_use s')) eqn:Hcond.
+  - (* the slab leaves the list and is handed out for deletion *)
+    apply andb_true_iff in Hcond. destruct Hcond as (_ & Hnu).
+    apply negb_true_iff in Hnu. unfold slab_in_use in Hnu. apply Nat.ltb_ge in Hnu.
+    assert (Hinuse1 : sl_inuse s = 1) by (cbn in Hnu; lia).
+    assert (Hall : forall k, k < N -> In k (free_nodes N s')).
+    { apply unused_all_free; auto. cbn. lia. }
+    unfold release_spec. cbn [p_slabs p_cur p_max p_nextid].
+    split; [|split; [reflexivity|]].
+    + pose proof (cwf_remove _ _ _ _ (sl_id s) Hc) as (R1 & R2 & R3 & R4 & R5).
+      constructor; cbn [p_slabs p_cur p_max p_nextid]; auto.
+      * rewrite W6, Hft. lia.
+      * apply abf_filter; auto.
+    + split; [rewrite Hown; auto|]. split; [rewrite Ebase; rewrite Forall_forall in W4; apply (W4 s); auto|].
+      split; [|split].
+      * intros x Hx. rewrite Hown in Hx. pose proof Hx as Hx'. apply owns_spec in Hx'.
+        destruct (Nat.eq_dec x o) as [|Hne]; auto. right.
+        apply (pfree_in_slab N hlen _ _ s x Hc Hin Hx).
+        assert (Hk : x - sl_base s < N) by lia.
+        specialize (Hall _ Hk). rewrite Hf' in Hall. destruct Hall as [E|E]; auto. unfold i in E. lia.
+      * intros x Hx. rewrite Hown in Hx.
+        rewrite (pfree_remove N hlen _ _ s x Hc Hin), (pused_remove N hlen _ _ s x Hc Hin). split; intros (E & _); congruence.
+      * intros x Hx. rewrite Hown in Hx.
+        rewrite (pfree_remove N hlen _ _ s x Hc Hin), (pused_remove N hlen _ _ s x Hc Hin). tauto.
+  - (* the slab stays, moved to the front *)
+    unfold release_spec. cbn [p_slabs p_cur p_max p_nextid].
+    pose proof (cwf_replace N hlen (p_nextid p) (p_slabs p) s s' Hc Hin Eid Ebase Hw') as Hc'.
+    split; [|split; [reflexivity|split]].
+    + destruct Hc' as (C1 & C2 & C3 & C4 & C5). constructor; cbn [p_slabs p_cur p_max p_nextid]; auto.
+      * cbn [free_total]. rewrite Hf'. cbn [length]. rewrite W6, Hft. lia.
+      * cbn. split; [|apply abf_filter; auto]. unfold full, has_avail. cbn. discriminate.
+    + apply (pfree_replace N hlen _ _ s s' o Hc Hin Eid Ebase). left. split; auto. fold i. rewrite Hf'. left; auto.
+    + intros x Hx.
+      rewrite (pfree_replace N hlen _ _ s s' x Hc Hin Eid Ebase), (pused_replace N hlen _ _ s s' x Hc Hin Eid Ebase).
+      rewrite Hf'. destruct (owns N s x) eqn:Hox.
+      * rewrite (pfree_in_slab N hlen _ _ s x Hc Hin Hox), (pused_in_slab N hlen _ _ s x Hc Hin Hox).
+        apply owns_spec in Hox. assert (i <> x - sl_base s) by (unfold i; lia).
+        cbn [In]. split; split; intros; intuition (try congruence).
+      * split; split; intros; intuition (try congruence).
+Qed.
+
+(* ------------------------------------------------------------------ Drain *)
+
+Lemma cwf_filter : forall N hlen nid l f, cwf N hlen nid l -> cwf N hlen nid (filter f l).
+Proof.
+  intros N hlen nid l f (H1 & H2 & H3 & H4 & H5). repeat split.
+  - rewrite Forall_forall in *. intros x Hx. apply filter_In in Hx. apply H1; tauto.
+  - clear - H2. induction l as [|h t IH]; cbn; auto. inversion H2; subst.
+    destruct (f h); cbn; auto. constructor; auto.
+    intros Hin. apply H1. apply in_map_iff in Hin. destruct Hin as (x & E & Hx). apply filter_In in Hx.
+    rewrite <- E. apply in_map; tauto.
+  - rewrite Forall_forall in *. intros x Hx. apply filter_In in Hx. apply H3; tauto.
+  - rewrite Forall_forall in *. intros x Hx. apply filter_In in Hx. apply H4; tauto.
+  - intros s1 s2 o I1 I2. apply filter_In in I1, I2. apply H5; tauto.
+Qed.
+
+Lemma free_total_filter : forall N l, Forall (slab_wf N) l ->
+  free_total N l = free_total N (filter slab_in_use l) + N * length (filter (fun s => negb (slab_in_use s)) l).
+Proof.
+  induction l as [|h t IH]; intros Hw; cbn [free_total filter length]; [lia|].
+  inversion Hw as [|x l' Hh Ht]; subst. specialize (IH Ht).
+  destruct (slab_in_use h) eqn:E; cbn [negb free_total length].
+  - lia.
+  - unfold slab_in_use in E. apply Nat.ltb_ge in E.
+    destruct (slab_wf_free _ _ Hh) as (_ & _ & Hlen). lia.
+Qed.
+
+Definition drain_spec (N hlen : nat) (p p' : pool) (dels : list slab) : Prop :=
+  pool_wf N hlen p' /\ p_max p' = p_max p /\
+  (forall sd, In sd dels -> sl_base sd + N <= hlen /\ forall x, owns N sd x = true -> pfree N (p_slabs p) x) /\
+  (forall x, pused N (p_slabs p') x <-> pused N (p_slabs p) x) /\
+  (forall x, pfree N (p_slabs p') x <-> pfree N (p_slabs p) x /\ forall sd, In sd dels -> owns N sd x = false) /\
+  (forall x, pfree N (p_slabs p) x -> pfree N (p_slabs p') x \/ exists sd, In sd dels /\ owns N sd x = true) /\
+  NoDup (map sl_id dels) /\
+  (forall s1 s2 x, In s1 dels -> In s2 dels -> owns N s1 x = true -> owns N s2 x = true -> s1 = s2).
+
+Theorem pool_drain_spec : forall N hlen p, 1 <= N -> pool_wf N hlen p ->
+  let '(p', dels) := pool_drain N p in drain_spec N hlen p p' dels.
+Proof.
+  intros N hlen p HN Hw.
+  pose proof (pool_wf_cwf _ _ _ Hw) as Hc.
+  destruct Hw as [W1 W2 W3 W4 W5 W6 W7].
+  unfold pool_drain, drain_spec. cbn [p_slabs p_cur p_max p_nextid].
+  set (unused := filter (fun s => negb (slab_in_use s)) (p_slabs p)).
+  assert (Hun : forall sd, In sd (rev unused) <-> In sd (p_slabs p) /\ slab_in_use sd = false).
+  { intros sd. rewrite <- in_rev. unfold unused. rewrite filter_In, negb_true_iff. tauto. }
+  assert (Hfree : forall sd x, In sd (p_slabs p) -> slab_in_use sd = false -> owns N sd x = true -> pfree N (p_slabs p) x).
+  { intros sd x I U O. exists sd. split; auto. split; auto.
+    apply unused_all_free; [rewrite Forall_forall in W1; auto| |apply owns_spec in O; lia].
+    unfold slab_in_use in U. apply Nat.ltb_ge in U. lia. }
+  assert (Hused : forall s x, In s (p_slabs p) -> owns N s x = true -> ~ In (x - sl_base s) (free_nodes N s) -> slab_in_use s = true).
+  { intros s x I O F. destruct (slab_in_use s) eqn:E; auto. exfalso. apply F.
+    apply unused_all_free; [rewrite Forall_forall in W1; auto| |apply owns_spec in O; lia].
+    unfold slab_in_use in E. apply Nat.ltb_ge in E. lia. }
+  pose proof (cwf_filter N hlen (p_nextid p) (p_slabs p) slab_in_use Hc) as Hc'.
+  split; [|split; [reflexivity|split; [|split; [|split; [|split; [|split]]]]]].
+  - destruct Hc' as (C1 & C2 & C3 & C4 & C5). constructor; cbn [p_slabs p_cur p_max p_nextid]; auto.
+    + rewrite W6. rewrite (free_total_filter N (p_slabs p) W1). fold unused. lia.
+    + apply abf_filter; auto.
+  - intros sd Hsd. apply Hun in Hsd. destruct Hsd as (I & U). split.
+    + rewrite Forall_forall in W4. apply W4; auto.
+    + intros x O. eapply Hfree; eauto.
+  - intros x. split.
+    + intros (s & I & O & F). apply filter_In in I. exists s; tauto.
+    + intros (s & I & O & F). exists s. split; auto. apply filter_In. split; auto. eapply Hused; eauto.
+  - intros x. split.
+    + intros (s & I & O & F). apply filter_In in I. destruct I as (I & U). split; [exists s; auto|].
+      intros sd Hsd. apply Hun in Hsd. destruct Hsd as (I2 & U2).
+      destruct (owns N sd x) eqn:E; auto. assert (sd = s) by (apply (cwf_unique N hlen (p_nextid p) (p_slabs p) sd s x); auto). subst. congruence.
+    + intros ((s & I & O & F) & Hno). exists s. split; auto. apply filter_In. split; auto.
+      destruct (slab_in_use s) eqn:E; auto. assert (Hs : In s (rev unused)) by (apply Hun; auto).
+      specialize (Hno s Hs). congruence.
+  - intros x (s & I & O & F). destruct (slab_in_use s) eqn:E.
+    + left. exists s. split; auto. apply filter_In; auto.
+    + right. exists s. split; auto. apply Hun; auto.
+  - pose proof (cwf_filter N hlen (p_nextid p) (p_slabs p) (fun s => negb (slab_in_use s)) Hc) as (_ & C2 & _).
+    fold unused in C2. rewrite map_rev. apply NoDup_rev; auto.
+  - intros s1 s2 x I1 I2 O1 O2. apply Hun in I1, I2. apply (cwf_unique N hlen (p_nextid p) (p_slabs p) s1 s2 x); tauto.
+Qed.
+
+(* ------------------------------------------------------------------ consequences *)
+
+(* bookkeeping consistency as the sanity check sees it, spelled out *)
+Theorem pool_wf_sanity : forall N hlen p, pool_wf N hlen p ->
+  p_cur p = free_total N (p_slabs p) /\
+  Forall (fun s => length (sl_next s) = N /\ sl_inuse s <= N /\
+                   length (free_nodes N s) = N - sl_inuse s /\ NoDup (free_nodes N s) /\
+                   (forall i, In i (free_nodes N s) -> i < N)) (p_slabs p).
+Proof.
+  intros N hlen p [W1 W2 W3 W4 W5 W6 W7]. split; auto.
+  rewrite Forall_forall in *. intros s Hs. specialize (W1 s Hs).
+  destruct (slab_wf_free _ _ W1) as (Hc & Hnd & Hlen). pose proof W1 as (Hl & _).
+  split; [auto|]. split; [lia|]. split; [lia|]. split; [auto|].
+  intros i Hi. eapply free_nodes_bound; eauto.
+Qed.
+
+(* a slab is created only when no listed slab has a free node *)
+Theorem obtain_creates_only_when_exhausted : forall N hlen p p' o sn, 1 <= N -> pool_wf N hlen p ->
+  pool_obtain N hlen p = (p', o, Some sn) -> p_cur p = 0.
+Proof.
+  intros N hlen p p' o sn HN Hw E. pose proof (pool_obtain_spec N hlen p HN Hw) as H. rewrite E in H.
+  destruct H as (_ & H & _); auto.
+Qed.
